@@ -3,29 +3,54 @@
    in its own fresh interpreter).  Result per case: 0 ok, else code + 10 * (index of the first offending call + 1):
    code 1 = the implementation violates the property at that call: a call over a valid design is refused, the exported
             package / netlist differs from the one a fresh process produces for the same tops, add() is accepted on a
-            module that an earlier call elaborated (or refused on one that none did);
+            module that an earlier call elaborated (or refused on one that none did), or a REFUSED add() changed what
+            the module holds;
    code 2 = the property is met but the implementation differs from the model: the (pass entry, module) visit log of the
             call is not the model's, or a pass body changed io it must leave alone (frame conditions of the read
-            discipline: bundle-level io before the flattening entry, flattened io after it);
+            discipline: bundle-level io before the flattening entry, flattened io after it), or the names a bundle-
+            flattening visit created / wired (namespace, ports, connection names of the instances) are not the ones the
+            flattening-names model computes from the module as it was before the visit and the flattened io of its children;
    code 3 = malformed case (history refers to a module that does not exist; the pass table lacks a needed entry). *)
-Require Import Hdl21.Base.PyInt Hdl21.Model.C07PassMgr.
+Require Import Hdl21.Base.PyInt Hdl21.Model.C07PassMgr Hdl21.Model.C07FlatNames.
+From Coq Require Import String.
 Local Open Scope nat_scope.
 Local Open Scope list_scope.
 
-(* the machine with trivial contents: visit order, done sets, snapshots and marks do not depend on the bodies *)
-Definition ubody (_ : nat) (_ : mid) (_ : list (view unit unit)) (c : unit) : unit := c.
-Definition ustate := state unit unit unit.
-Definition ustep (bf mk : nat) : ustate -> op -> ustate * resp unit :=
-  step unit unit unit (fun _ => tt) (fun _ => tt) ubody (fun c => c) default_caches bf mk.
-Definition uinit (d : design) : ustate := init_state unit unit unit (fun _ => tt) d.
+(* the machine with the flattening-names body (Model/C07FlatNames.v) at the flattening entry and bodies that change
+   nothing of the modelled names elsewhere; the content `init m` of a module is what the implementation showed right
+   BEFORE its flattening body ran (each module is flattened at most once per history).  Visit order, done sets,
+   snapshots and marks do not depend on the bodies. *)
+Definition ustate := state cmod cio cfl.
+Definition ustep (bf mk : nat) : ustate -> op -> ustate * resp cmod :=
+  step cmod cio cfl cbio cfio (fbody bf (fun _ _ _ c => c) (fun _ _ _ c => c)) (fun _ c => c) default_caches bf mk.
+Definition uinit (inits : list cmod) (d : design) : ustate := init_state cmod cio cfl (fun m => nth m inits cm_empty) d.
+
+Fixpoint list_eqb {A} (e : A -> A -> bool) (a b : list A) : bool :=
+  match a, b with
+  | [], [] => true
+  | x :: a', y :: b' => e x y && list_eqb e a' b'
+  | _, _ => false
+  end.
+Definition strs_eqb := list_eqb String.eqb.
+(* connection names of an instance are compared as a multiset: the ORDER of `inst.conns` is no observable of this property
+   (it is what fix 330cc52 of another property made deterministic; the pinned tree appends flattened connections) *)
+Definition scount (x : string) (l : list string) : nat := List.length (filter (String.eqb x) l).
+Definition strs_permb (a b : list string) : bool :=
+  (List.length a =? List.length b) && forallb (fun x => scount x a =? scount x b) a.
+Definition inst_eqb (a b : mid * list string) : bool := (fst a =? fst b) && strs_permb (snd a) (snd b).
+(* what the implementation showed right AFTER a flattening body: namespace, ports, connection names of the instances *)
+Definition post_eqb (c ob : cmod) : bool :=
+  strs_eqb (c_ns c) (c_ns ob) && strs_eqb (c_ports c) (c_ports ob) && list_eqb inst_eqb (c_insts c) (c_insts ob).
 
 (* the implementation's observation of one call:
    accepted (no exception; elaborate returned the very objects it was given),
    logged: the history ran under the logging elaborator (false: under the default elaborator, no visit log),
    visit log oldest first: (entry, module, public io unchanged by the body),
-   same: 1 output equals the fresh-process reference, 0 differs, 2 the call has no output *)
-Inductive iobs := IObs (accepted : bool) (logged : bool) (log : list (nat * nat * bool)) (same : nat).
-Definition c07case := (design * list (op * iobs))%type.
+   same: 1 output equals the fresh-process reference, 0 differs, 2 the call has no output;
+         for add(): 0 = the attempt changed what the module publicly holds (containers, namespace), 2 = it did not *)
+Inductive iobs := IObs (accepted : bool) (logged : bool) (log : list (nat * nat * bool)) (same : nat)
+                       (flat : list (mid * cmod)).   (* per flattening visit of the call: module, names after the body *)
+Definition c07case := (design * list cmod * list (op * iobs))%type.
 
 (* specification side: m was elaborated by an earlier call iff it is reachable from one of that call's tops *)
 Fixpoint reachb (d : design) (fuel : nat) (t m : mid) : bool :=
@@ -44,7 +69,7 @@ Definition tops_of (o : op) : list mid :=
   match o with Elaborate t | Export t | Netlist t => t | _ => [] end.
 
 Definition chk_call (bf mk : nat) (st : ustate) (called : list mid) (o : op) (ob : iobs) : nat * ustate :=
-  let '(IObs acc logged log same) := ob in
+  let '(IObs acc logged log same flat) := ob in
   let '(st', r) := ustep bf mk st o in
   match r with
   | RBad _ => (3, st')
@@ -55,35 +80,42 @@ Definition chk_call (bf mk : nat) (st : ustate) (called : list mid) (o : op) (ob
       | Elaborate _ => acc && negb (same =? 0)
       | Export _ | Netlist _ => acc && (same =? 1)
       | NewParent _ => acc
-      | Add m => if spec_elaborated d called m then negb acc else acc
+      | Add m _ => if spec_elaborated d called m then negb acc && negb (same =? 0) else acc
       end in
     if negb prop_ok then (1, st') else
     let fresh := rev (firstn (List.length (s_log st') - List.length (s_log st)) (s_log st')) in
     let model_ok :=
-      (negb logged || keys_eqb log (log_keys unit unit fresh)) &&
+      (negb logged || keys_eqb log (log_keys cio cfl fresh)) &&
       forallb (fun e => let '(k, _, u) := e in (k =? bf) || u) log &&
+      (* the flattening-names model: one observation per flattening visit, each equal to the model's content *)
+      (negb logged || (List.length flat =? List.length (filter (fun e => fst (fst e) =? bf) fresh))) &&
+      forallb (fun e => post_eqb (s_content st' (fst e)) (snd e)) flat &&
       match o, r with
-      | Add _, RRefused _ => negb acc
-      | Add _, RAccepted _ => acc
-      | Add _, _ => false
+      | Add _ _, RRefused _ => negb acc
+      | Add _ _, RAccepted _ => acc
+      | Add _ _, _ => false
       | _, _ => true
       end in
     if model_ok then (0, st') else (2, st')
   end.
 
-Fixpoint chk_calls (bf mk : nat) (st : ustate) (called : list mid) (l : list (op * iobs)) (i : Z) : Z :=
+(* a code-1 verdict (the property is violated) anywhere in the history wins over an earlier code-2 verdict (model and
+   implementation differ), which is kept in `pend` and reported when no later call violates the property *)
+Fixpoint chk_calls (bf mk : nat) (st : ustate) (called : list mid) (l : list (op * iobs)) (i : Z) (pend : Z) : Z :=
   match l with
-  | [] => 0%Z
+  | [] => pend
   | (o, ob) :: l' =>
       let '(c, st') := chk_call bf mk st called o ob in
-      if c =? 0 then chk_calls bf mk st' (tops_of o ++ called) l' (i + 1)%Z
+      if c =? 0 then chk_calls bf mk st' (tops_of o ++ called) l' (i + 1)%Z pend
+      else if c =? 2 then chk_calls bf mk st' (tops_of o ++ called) l' (i + 1)%Z
+                            (if (pend =? 0)%Z then (2 + 10 * (i + 1))%Z else pend)
       else (Z.of_nat c + 10 * (i + 1))%Z
   end.
 
 Definition chk_c07 (c : c07case) : Z :=
-  let '(d, l) := c in
+  let '(d, inits, l) := c in
   match default_bf, default_mk with
-  | Some bf, Some mk => if wf_design d then chk_calls bf mk (uinit d) [] l 0%Z else 3%Z
+  | Some bf, Some mk => if wf_design d then chk_calls bf mk (uinit inits d) [] l 0%Z 0%Z else 3%Z
   | _, _ => 3%Z
   end.
 
